@@ -25,6 +25,10 @@ Definition sconstruct (c : ctor) : kind * Z :=
   | CISignedLe b => (KI, spec_from_signed_bytes_le b)
   | CISignedBe b => (KI, spec_from_signed_bytes_le (rev b))
   | CIFromU d => (KI, val d)
+  | CURadixLe b r => (KU, le_value r b)
+  | CURadixBe b r => (KU, le_value r (rev b))
+  | CIRadixLe s b r => (KI, sign_z s * le_value r b)
+  | CIRadixBe s b r => (KI, sign_z s * le_value r (rev b))
   end.
 
 Definition ill_s : outcome Z := Panic (Internal 1400).
